@@ -182,7 +182,12 @@ fn copy_overlap_collision(state: &NTree, model: &Model, op: &Op) -> bool {
         (Some(Ok(a)), Some(Ok(b))) => (a, b),
         _ => return false,
     };
-    if !is_under(&da, &sa) || !matches!(state.nodes.get(&sa).map(|n| &n.kind), Some(NKind::Dir)) {
+    // (under follow the source root is what the link points to)
+    let sa = match (op, state.nodes.get(&sa).map(|n| n.kind.clone())) {
+        (Op::CopyB(_, _, _, true), Some(NKind::Link { target, .. })) => target,
+        _ => sa,
+    };
+    if !(da == sa || is_under(&da, &sa)) || !matches!(state.nodes.get(&sa).map(|n| &n.kind), Some(NKind::Dir)) {
         return false;
     }
     let droot = if state.is_real_dir(&da) { join(&da, base_of(&sa)) } else { da.clone() };
@@ -301,12 +306,27 @@ fn alphabet(paths: &[String], unpriv: bool) -> Vec<Op> {
         v.push(Op::Symlink(p.clone(), "b".into()));
         v.push(Op::Symlink(p.clone(), "../a".into()));
     }
+    // builders that are kept while the cwd changes / executed twice: both backends have to resolve their paths at the
+    // same moment
+    let held = |o: Op, c: &[&str]| Op::Held(Box::new(o), c.iter().map(|x| x.to_string()).collect());
+    for rel in ["a", "b", "a/b"] {
+        for cwds in [vec!["/", "/a"], vec!["/a", "/b"], vec!["/", "/a", "/b"], vec!["/b", "/"]] {
+            v.push(held(Op::ChmodB(rel.into(), ChmodO { all: Some(0o750), dirs: None, files: None, sym: None, recurse: None, follow: false }), &cwds));
+            v.push(held(Op::ChownB(rel.into(), ChownO { uid: Some(if unpriv { 1000 } else { 5 }), gid: None, recurse: None, follow: false }), &cwds));
+            v.push(held(Op::CopyB(rel.into(), "zz9".into(), CopyMode::None, false), &cwds));
+        }
+    }
     v.push(Op::Cwd);
     v.push(Op::Root);
     v
 }
 
 fn in_domain_call(state: &NTree, model: &Model, op: &Op) -> bool {
+    // (a held builder resolves relative paths against the cwds it sets itself: judged only on states without links,
+    // where no spelling can pass through one)
+    if matches!(op, Op::Held(..)) {
+        return !state.nodes.values().any(|n| matches!(n.kind, NKind::Link { .. }));
+    }
     for p in op.paths() {
         match model.abs(p) {
             Some(Ok(a)) => {
